@@ -26,6 +26,13 @@ ONLY: set = set()
 
 def apply_edits(entry):
     srcs = {}
+    if entry.get("base"):
+        # the edits are made on top of an archived behaviour-preserving refactor (a broken twin of that refactor)
+        from selftest import corpus
+        with open(os.path.join(os.path.dirname(HERE), "refactors", entry["base"], "patch.diff")) as f:
+            srcs, why = corpus.apply_patch(SRC, f.read())
+        if srcs is None:
+            return None, f"base refactor {entry['base']}: {why}"
     for rel, old, new in entry["edits"]:
         path = os.path.join(SRC, rel)
         cur = srcs.get(rel)
